@@ -20,7 +20,11 @@ fn do_disc(ctx: &mut Ctx, f: &[BigInt]) {
 /// as `disc`, the list handed over as `Polynomial { dat }` without normalisation (what the CLI does)
 /// process level: `rust-number-theory <config>` with to_find = discriminant
 fn do_cli_disc(ctx: &mut Ctx, f: &[BigInt]) {
-    let cfg = format!("to_find = ['discriminant']\n[input]\npolynomials = [{}]\n", toml_list(f));
+    let mut v = variant_of(&[show_ints(f)]);
+    if f.is_empty() {
+        v = match v { 1 | 2 => 0, 5 => 3, x => x };
+    }
+    let cfg = format!("to_find = ['discriminant']\n[input]\npolynomials = {}\n", toml_polys(&[f], v));
     if let Some(out) = run_cli(&cfg) {
         let ans = if out.starts_with("panic") { out } else { json_field(&out, "discriminant").unwrap_or_else(|| "noanswer".into()) };
         ctx.emit("cli.disc", &[show_ints(f)], ans);
